@@ -85,8 +85,16 @@ func (cm *MemClientMgr) Add(cc *ClientConn) {
 	cm.mu.Lock()
 	defer cm.mu.Unlock()
 
-	cm.nextClientID.Add(1)
-	binary.BigEndian.PutUint16(cc.ID[:], uint16(cm.nextClientID.Load()))
+	// The ID is 16 bits wide, so the counter wraps around after 65,535 connections: skip 0 and any ID that is still
+	// held by a connected client.
+	for {
+		cm.nextClientID.Add(1)
+		binary.BigEndian.PutUint16(cc.ID[:], uint16(cm.nextClientID.Load()))
+
+		if _, inUse := cm.clients[cc.ID]; !inUse && cc.ID != (ClientID{}) {
+			break
+		}
+	}
 
 	cm.clients[cc.ID] = cc
 }
